@@ -29,6 +29,8 @@ var Props = map[string]PropRunner{
 	// iteration and size-bounded merges on a log shared between tasks
 	"C15c": func(r *Run) { RunE1(r, "C15") },
 	"C16c": func(r *Run) { RunE1(r, "C16") },
+	// replicas of one writer writing identical blocks to one store at overlapping times
+	"C17c": func(r *Run) { RunE1(r, "C17") },
 	"C17": func(r *Run) {
 		p := e0Profile("C17", "C17")
 		p.Weights[opAppend] = 40
